@@ -46,7 +46,7 @@ def classify(req, obs, rule):
         if km < 2:
             return None
         outs = [] if f[5] == "-" else f[5].split(",")
-        ok = sum(1 for o in outs if o.startswith("s"))
+        ok = sum(1 for o in outs if o[:1] in ("s", "t"))   # success with fresh outputs / pass-through
         bad = len(outs) - ok
         m = re.search(r"\|inv=(\d+)\|", obs)
         if not m or int(m.group(1)) != len(outs) or not outs:
@@ -73,6 +73,8 @@ def nontrivial(req, obs):
         return f[1] != "-" and f[6] != "0" and f[2] == "0"   # at least one decorator and one message received
     if f[0] == "rt":
         return f[5] != "-"
+    if f[0] == "ch":
+        return f[4] != "0" and (f[1] != "-" or f[2] != "-")
     return False
 
 
@@ -109,6 +111,9 @@ PROP = {
         "Wm.Decor.metrics_subscribe_once_run",
         "Wm.Decor.handler_label",
         "Wm.Decor.old_panic_label_witness",
+        "Wm.Decor.deliver_keeps_pub",
+        "Wm.Decor.metrics_publish_once_after_receive",
+        "Wm.Decor.outputs_head",
         "Wm.Decor.router_step_no_output",
         "Wm.Decor.router_step_output",
         "Wm.Decor.metrics_handler_once_partial",
@@ -139,7 +144,10 @@ PROP = {
             "messages. rt: a real message.Router with one handler, publisher/subscriber decorated 0..3 times with the metrics decorators, "
             "middleware once (in 1 of 8 random cases twice = finding handler-middleware-applied-twice, reported as KNOWN-FINDING; in 1 of 16 "
             "not at all = outside the property, model conformance only), handler outcome sequences over success "
-            "(0-2 outputs) / error / panic with publisher failure scripts. Prometheus: "
+            "(0-2 outputs) / error / panic / pass-through (the handler returns the CONSUMED message object itself, alone or between 0-2 "
+            "fresh outputs) with publisher failure scripts. ch: a message received through a subscriber stack is handed, same object, to a "
+            "publisher stack (all pairs of stacks of depth <= 2 over {transform, metrics} + random pairs of depth <= 3): the subscribe mark "
+            "left by the metrics subscriber decorator must not be taken for the publish mark. Prometheus: "
             "private registry, Gather() sample COUNTS per sorted label set compared with the harness' own counts (probe above the metrics "
             "decorator, scripted inner publisher, settled messages, handler invocations). Non-trivial = at least one decorator and one "
             "Publish call / one received message / one handler invocation; distinct = distinct (request, observation) pairs.",
@@ -165,6 +173,9 @@ PROP = {
         "'already observed' marks (user code, outside the property)",
         "the messages of one batch are distinct objects; the innermost subscriber hands out fresh message objects (as every "
         "watermill subscriber does)",
+        "the publish mark and the subscribe mark are two different context keys (fact ctx_mark_keys_distinct, computed from the const "
+        "declarations); the model keeps them as two fields, so a message that was only received is counted on its first Publish "
+        "(theorem metrics_publish_once_after_receive); finding D15 is only about a mark left by an earlier PUBLISH of the same object",
         "the handler metrics middleware not registered at all (km = 0) is outside the property: such Router cases are only compared "
         "with the model",
         "counts of subscriber_messages_received_total are read at quiescence (the increment happens in a goroutine after the "
